@@ -289,3 +289,52 @@ package nfa
 //@   modifies c.builder.states, c.builder.states[*], c.builder.byteClassSet.*
 //@   ensures forall b0 byte :: acc1(c.builder, result, endState, b0) <==> (lo <= int(b0) && int(b0) <= hi)
 //@   ensures int(result) == old(len(c.builder.states)) && len(c.builder.states) == old(len(c.builder.states)) + 1 && off(c.builder.states) == 0 && c.builder == old(c.builder) && c.builder.byteClassSet == old(c.builder.byteClassSet)
+
+// ---- character-class repetition searcher (C19): closed form = runs of table bytes ----
+
+//@ spec func ccWin(s *CharClassSearcher, h []byte, i int) bool = 0 <= i && i + s.minMatch <= len(h) && (forall k :: i <= k && k < i + s.minMatch ==> s.membership[h[k]])
+//@ spec func ccOK(s *CharClassSearcher) bool = s != nil && 1 <= s.minMatch && s.minMatch <= 1048576
+
+//@ func (*CharClassSearcher).SearchAt
+//@   props C19 C07 C02
+//@   requires ccOK(s) && 0 <= at && len(haystack) <= 140737488355328
+//@   ensures result2 ==> at <= result0 && result0 < result1 && result1 <= len(haystack) && result1 - result0 >= s.minMatch
+//@   ensures result2 ==> (forall k :: result0 <= k && k < result1 ==> s.membership[haystack[k]]) && (result1 == len(haystack) || !s.membership[haystack[result1]])
+//@   ensures result2 ==> (forall i :: at <= i && i < result0 ==> !ccWin(s, haystack, i))
+//@   ensures !result2 ==> result0 == -1 && result1 == -1 && (forall i :: at <= i ==> !ccWin(s, haystack, i))
+//@   loop 1: invariant at <= i && i <= n && n == len(haystack) && start == -1
+//@   loop 1: invariant forall j :: at <= j && j < i ==> !s.membership[haystack[j]]
+//@   loop 1: decreases n - i
+//@   loop 2: invariant 0 <= start && at <= start && start < end && end <= n && n == len(haystack)
+//@   loop 2: invariant forall k :: start <= k && k < end ==> s.membership[haystack[k]]
+//@   loop 2: invariant forall j :: at <= j && j < start ==> !s.membership[haystack[j]]
+//@   loop 2: decreases n - end
+
+//@ func (*CharClassSearcher).Search
+//@   props C19 C07 C02
+//@   requires ccOK(s) && len(haystack) <= 140737488355328
+//@   ensures result2 ==> 0 <= result0 && result0 < result1 && result1 <= len(haystack) && (forall i :: 0 <= i && i < result0 ==> !ccWin(s, haystack, i)) && (forall k :: result0 <= k && k < result1 ==> s.membership[haystack[k]]) && (result1 == len(haystack) || !s.membership[haystack[result1]])
+//@   ensures !result2 ==> result0 == -1 && result1 == -1 && (forall i :: 0 <= i ==> !ccWin(s, haystack, i))
+
+//@ func (*CharClassSearcher).IsMatch
+//@   props C19 C07 C01
+//@   requires ccOK(s) && len(haystack) <= 140737488355328
+//@   ensures result == (exists i :: ccWin(s, haystack, i))
+//@   loop 1: invariant 0 <= i && i <= n && n == len(haystack) && 0 <= matchLen && matchLen < s.minMatch && matchLen <= i
+//@   loop 1: invariant forall k :: i - matchLen <= k && k < i ==> s.membership[haystack[k]]
+//@   loop 1: invariant matchLen < i ==> !s.membership[haystack[i - matchLen - 1]]
+//@   loop 1: invariant forall j :: 0 <= j && j + s.minMatch <= i ==> !ccWin(s, haystack, j)
+//@   loop 1: decreases n - i
+
+// applicability of the character-class searcher: only a GREEDY one-or-more repetition of an ASCII class is a
+// maximal-run search (a lazy `+?` stops after one byte)
+//@ func ExtractCharClassRanges
+//@   props C19 C07
+//@   requires re != nil ==> (len(re.Sub) <= 1000000 && len(re.Rune) <= 1000000 && (forall k :: 0 <= k && k < len(re.Sub) ==> re.Sub[k] != nil))
+//@   ensures result != nil ==> re != nil && re.Op == 15 && (re.Flags & 32) == 0 && len(re.Sub) == 1
+//@   ensures result != nil ==> re.Sub[0].Op == 4 && len(re.Sub[0].Rune) % 2 == 0 && len(result) * 2 == len(re.Sub[0].Rune) && len(result) >= 1
+//@   ensures result != nil ==> (forall j :: 0 <= j && j < len(re.Sub[0].Rune) ==> re.Sub[0].Rune[j] <= 127)
+//@   loop 1: invariant 0 <= i && i <= len(sub.Rune) && i % 2 == 0 && len(ranges) * 2 == i && len(sub.Rune) % 2 == 0 && sub == re.Sub[0] && sub != nil
+//@   loop 1: invariant forall j :: 0 <= j && j < i ==> sub.Rune[j] <= 127
+//@   loop 1: invariant fresh(ranges) || ranges == nil
+//@   loop 1: decreases len(sub.Rune) - i
